@@ -4,7 +4,7 @@ From AG Require Import Str F64 Value Json Expr Ops Pipeline F64_exact_proofs Val
 Import ListNotations.
 From Coq Require Import Reals Floats.SpecFloat.
 From Flocq Require Import Core BinarySingleNaN.
-From AG Require Import Dec_proofs.
+From AG Require Import Dec_proofs Num_proofs.
 Open Scope Z_scope.
 
 (** a JSON integer inside the 64-bit range stays exactly that integer *)
@@ -68,6 +68,26 @@ Theorem C08_int_double_roundtrip : forall z, Z.abs z <= 2 ^ 53 ->
   ftrunc_Z (f_of_Z z) = z /\ from_float (f_of_Z z) = VInt z.
 Proof. intros z H. split; [now apply ftrunc_f_of_Z | now apply from_float_of_Z]. Qed.
 Print Assumptions C08_int_double_roundtrip.
+
+(** the integer-to-integer functions keep every integer exact (no detour through a double), and
+    text that auto-converts to the integer N coerces to that N in num() (fix 43e6167) *)
+Theorem C08_int_functions_exact : forall i : Z,
+  eval_func (lit "num") [VInt i] = Ok (VInt i) /\
+  eval_func (lit "ceil") [VInt i] = Ok (VInt i) /\
+  eval_func (lit "floor") [VInt i] = Ok (VInt i) /\
+  eval_func (lit "round") [VInt i] = Ok (VInt i) /\
+  (in_i64 (Z.abs i) = true -> eval_func (lit "abs") [VInt i] = Ok (VInt (Z.abs i))).
+Proof. exact int_functions_exact. Qed.
+Print Assumptions C08_int_functions_exact.
+Theorem C08_num_of_integer_text : forall (s : str) (i : Z),
+  from_string s = VInt i -> eval_func (lit "num") [VStr s] = Ok (VInt i).
+Proof. exact num_of_integer_text. Qed.
+Example C08_int_functions_beyond_2p53 :
+  eval_func (lit "num") [VInt 9007199254740993] = Ok (VInt 9007199254740993) /\
+  eval_func (lit "abs") [VInt (-9007199254740993)] = Ok (VInt 9007199254740993) /\
+  eval_func (lit "num") [VStr (lit " 9007199254740993 ")] = Ok (VInt 9007199254740993) /\
+  eval_func (lit "abs") [VInt i64_min] = Ok (VFloat (f_of_Z (- i64_min))).
+Proof. exact int_functions_beyond_2p53. Qed.
 
 Example C08_examples :
   from_string (lit "-5") = VInt (-5) /\
